@@ -97,7 +97,12 @@ fn build(c: &Case) -> (cmd::Project, cmd::Remote) {
 /// graphs in which a crate name occurs in several versions and from several sources.
 fn policies_run(r: &mut Report, d: &mut Driver, rng: &mut Rng, n: u64) {
     for i in 0..n {
-        let graph = gen::gen_graph(rng, 6);
+        let mut graph = gen::gen_graph(rng, 6);
+        // (the mock registry's index URL layout needs crate names of 4+ characters)
+        for q in &mut graph.pkgs {
+            let k = gen::PKG_NAMES.iter().position(|n| *n == q.name).unwrap();
+            q.name = cmd::NAMES[k % cmd::NAMES.len()].to_owned();
+        }
         let md = graph.metadata();
         let mut names: Vec<String> = graph.pkgs.iter().map(|p| p.name.clone()).collect();
         names.push("zz-stray".into());
@@ -183,7 +188,73 @@ fn policies_run(r: &mut Report, d: &mut Driver, rng: &mut Rng, n: u64) {
         if !entries.is_empty() {
             r.nontrivial(&case);
         }
+        // ---- check_audit_as_crates_io on the same project, against a mock registry in which some
+        // of the names exist, with or without matching metadata
+        let mut remote = cmd::Remote::default();
+        for nm in &names {
+            if rng.chance(2, 3) {
+                remote.registry.insert(nm.clone(), vec![cmd::RegVersion { version: semver::Version::new(1, 0, 0), user: Some(1), day: 0 }]);
+                if rng.chance(1, 2) {
+                    remote.matching_metadata.insert(nm.clone());
+                }
+            }
+        }
+        remote.install();
+        let real2 = guarded(|| {
+            let network = Network::acquire(&cfg);
+            let mut cache = crate::storage::Cache::acquire(&cfg).map_err(|e| format!("{e:?}"))?;
+            Ok::<_, String>(tokio::runtime::Handle::current().block_on(crate::check_audit_as_crates_io(&cfg, &store, network.as_ref(), &mut cache)))
+        });
+        let mut imp2: Vec<(usize, usize, usize)> = Vec::new();
+        let imp2_line = match &real2 {
+            Ok(Ok(Ok(()))) => "ok 0".to_owned(),
+            Ok(Ok(Err(e))) => {
+                for ae in &e.errors {
+                    match ae {
+                        crate::errors::AuditAsError::UnusedAuditAs(x) => for pe in &x.errors { imp2.push((0, rank_n(&pe.package), 0)); },
+                        crate::errors::AuditAsError::NeedsAuditAs(x) => for pe in &x.errors { imp2.push((1, rank_n(&pe.package), pe.version.as_ref().map(|v| rank_v(v) + 1).unwrap_or(0))); },
+                        crate::errors::AuditAsError::ShouldntBeAuditAs(x) => for pe in &x.errors { imp2.push((2, rank_n(&pe.package), pe.version.as_ref().map(|v| rank_v(v) + 1).unwrap_or(0))); },
+                    }
+                }
+                imp2.sort();
+                format!("ok {} {}", imp2.len(), imp2.iter().map(|(a, b, c)| format!("{a} {b} {c}")).collect::<Vec<_>>().join(" "))
+            }
+            other => format!("error {other:?}").chars().take(200).collect(),
+        };
+        let mut t2 = Toks::new();
+        let pe: Vec<(String, Option<VetVersion>)> = config.policy.iter().filter(|(_, _, e)| e.audit_as_crates_io.is_some()).map(|(n, v, _)| (n.clone(), v.cloned())).collect();
+        t2.n(pe.len());
+        for (n, v) in &pe {
+            t2.n(rank_n(n));
+            match v { Some(v) => { t2.n(rank_v(v) + 1); } None => { t2.n(0); } }
+        }
+        let fps: Vec<&gen::GPkg> = graph.pkgs.iter().filter(|q| q.source != 1).collect();
+        t2.n(fps.len());
+        for q in &fps {
+            // the policy entry that applies to this very version (independent of Policy::get)
+            let applies: Option<&PolicyEntry> = match config.policy.package.get(&q.name) {
+                Some(PackagePolicyEntry::Unversioned(e)) => Some(e),
+                Some(PackagePolicyEntry::Versioned { version }) => version.get(&q.version),
+                None => None,
+            };
+            t2.n(rank_n(&q.name)).n(rank_v(&q.version)).b(q.version.git_rev.is_some());
+            match applies.and_then(|e| e.audit_as_crates_io) { None => { t2.n(0); } Some(false) => { t2.n(1); } Some(true) => { t2.n(2); } }
+            if remote.registry.contains_key(&q.name) { t2.n(1).list(&[0]); } else { t2.n(0); }
+            t2.b(remote.matching_metadata.contains(&q.name));
+        }
+        let ans2 = d.ask(&format!("auditas {}", t2.text()));
+        let model2 = match ans2.strip_prefix("ok ") {
+            Some(body) => {
+                let toks: Vec<usize> = body.split(' ').filter_map(|x| x.parse().ok()).collect();
+                let mut v: Vec<(usize, usize, usize)> = toks[1.min(toks.len())..].chunks(3).filter(|c| c.len() == 3).map(|c| (c[0], c[1], c[2])).collect();
+                v.sort();
+                format!("ok {} {}", v.len(), v.iter().map(|(a, b, c)| format!("{a} {b} {c}")).collect::<Vec<_>>().join(" ")).trim_end().to_owned()
+            }
+            None => ans2.clone(),
+        };
+        r.corr("corr.audit-as", imp2_line.trim_end(), &model2, &format!("{case}\nregistry {:?} matching {:?}", remote.registry.keys().collect::<Vec<_>>(), remote.matching_metadata));
     }
+    *crate::network::VERIF_MOCK_NETWORK.lock().unwrap() = None;
 }
 
 pub fn run(r: &mut Report) {
